@@ -235,7 +235,7 @@ func C09(run *ev.Run, tier string) map[string]interface{} {
 			{"SET a = ", ""}, {"SET a = ", " + ", ""}, {"SET a = if_not_exists(", ", ", ")"}, {"SET a = list_append(", ", ", ")"}, {"SET ", " = :v"}, {"ADD ", " ", ""}, {"DELETE ", " ", ""}, {"REMOVE ", ""}, {"REMOVE a, ", ""},
 		}
 		operands := []string{"a", "zz", ":v", "m.a", "l[0]"}
-		fillers := []string{"a = :v", "zz = :v", "NOT a", "NOT zz", "a AND a", "(a = :v)", "size", "SET", "AND", "IN", "attribute_exists(a)", "attribute_exists(zz)", "nosuchfn(a)", "a IN (:v)", "SET a = :v", "", ","}
+		fillers := []string{"a = :v", "zz = :v", "a <> :v", "a < :v", "a <= :v", "a > :v", "a >= :v", "a = :v AND a = :v", "a = :v OR a = :v", "zz = :v OR a = :v", "a BETWEEN :v AND :v", "NOT a", "NOT zz", "a AND a", "(a = :v)", "size", "SET", "AND", "IN", "attribute_exists(a)", "attribute_exists(zz)", "nosuchfn(a)", "a IN (:v)", "SET a = :v", "", ","}
 		for _, f := range forms {
 			slots := len(f) - 1
 			for bad := 0; bad < slots; bad++ {
@@ -365,7 +365,7 @@ func C09(run *ev.Run, tier string) map[string]interface{} {
 		"sentences_by_reference":     st.sentences,
 		"rejected_by_implementation": st.rejected,
 		"accepted_by_implementation": st.accepted,
-		"rule":                       fmt.Sprintf("(a) every token string up to length %d over the %d-token alphabet and up to length %d over its %d-token core, joined with and without blanks; (b) every byte string of length 1 and 2 standalone, every byte (and pairs over %d representative bytes incl. NUL and high bytes) embedded at every position of three valid sentences; (c) pumped sentences up to 4 KB and function-arity variants (directed); (d) every operand position of 24 sentence forms (comparators, IN, BETWEEN, the functions, boolean combinations, SET/ADD/DELETE/REMOVE) filled with each of 17 non-operands (conditions, keywords, unknown functions, actions, nothing) next to present and absent operands; each in both grammars against a typed item and an empty item through interpreter.Language.Match/Update; non-sentences up to length %d over the core alphabet through five client API entry points of both SDK clients. A string is distinct by its bytes", maxLen, len(c09Alphabet), coreLen, len(c09Core), len(reps), cmax),
+		"rule":                       fmt.Sprintf("(a) every token string up to length %d over the %d-token alphabet and up to length %d over its %d-token core, joined with and without blanks; (b) every byte string of length 1 and 2 standalone, every byte (and pairs over %d representative bytes incl. NUL and high bytes) embedded at every position of three valid sentences; (c) pumped sentences up to 4 KB and function-arity variants (directed); (d) every operand position of 24 sentence forms (comparators, IN, BETWEEN, the functions, boolean combinations, SET/ADD/DELETE/REMOVE) filled with each of 27 non-operands (conditions, keywords, unknown functions, actions, nothing) next to present and absent operands; each in both grammars against a typed item and an empty item through interpreter.Language.Match/Update; non-sentences up to length %d over the core alphabet through five client API entry points of both SDK clients. A string is distinct by its bytes", maxLen, len(c09Alphabet), coreLen, len(c09Core), len(reps), cmax),
 		"oracle":                     "no panic; termination (supervisor stall cap); a string the generous reference recogniser rejects (unknown character, incomplete, unbalanced, trailing or juxtaposed tokens, lower-case keyword taken for a name) must be rejected; at the client API: an error or the documented panic carrying the syntax error, never a successful call",
 		"samples":                    []interface{}{"a = :v and a = :v", "( a = :v", "SET a = :v , ", "a = :v\u0000junk", strings.Join(c09Alphabet, " ")},
 		"exhaustive":                 true,
